@@ -45,6 +45,11 @@ def run(ck, ctx):
                       "its predecessor and is dropped by compaction while recovery without compaction merges it in (shared with C08 R08.2)")
     from . import c12 as _c12w
     ck.rule("R13.13", _c12w.WRITER_TEXT + " (shared with C12 R12.8; compaction writes its output through the same writer)")
+    from . import c06 as _c06t
+    ck.rule("R13.14", _c06t.DELTA_TEXT + " (shared with C06 R06.10: compaction keeps one delta per key, so a partial delta erases the rest of the value)")
+    ck.rule("R13.15", "a manifest save that reports success has installed *its* manifest: put(temp) Ok-dominates rename(temp, manifest) and both "
+                      "errors are propagated - a rename failure (e.g. NotFound because a concurrent writer consumed the shared temp object) is "
+                      "never turned into success, or compaction deletes inputs that the installed manifest still lists (shared with C12 R12.3)")
     for cfg in ctx.configs:
         prog = ctx.prog(cfg)
         ck.configs.append(cfg)
@@ -62,6 +67,10 @@ def run(ck, ctx):
         c12._r126(ck, prog, fns12, cfg, rid="R13.11", floor=4)
         from . import c12
         c12._r127(ck, prog, [f for f in prog.lib_fns() if f.file == "src/streaming/compaction.rs"], cfg, rid="R13.8", floor=1)
+        from .core import Only as _Only
+        c12._r123(_Only(ck, {"R12.3": "R13.15"}), prog, fns12, cfg)
+        from . import c06 as _c06
+        _c06.r0610(ck, prog, cfg, "R13.14")
 
 
 def _wall_clock_locals(fn):
